@@ -53,7 +53,7 @@ TIERS = {
         "design": [{"Mode": "full", "D": 2, "W": 2, "ng": 3, "Steps": True}],
         "controls": ["rm_hoist_first", "rm_and_keeps_survivors", "print_no_inner_parens",
                      "spell_mix_unparenthesised"],
-        "full": {"D": 2, "W": 2, "ng": 3, "palettes": 1},
+        "full": {"D": 2, "W": 2, "ng": 3, "palettes": 1, "style_stride": 2},
         "sample": {"D": 3, "W": 3, "ng": 4, "NSamples": 500, "NSpell": 2, "palettes": 1},
     },
     "thorough": {
@@ -65,6 +65,12 @@ TIERS = {
         "sample": {"D": 3, "W": 3, "ng": 4, "NSamples": 10000, "NSpell": 3, "palettes": 1},
     },
 }
+
+# the token parser / printer of GPROps are recursive: a 27-operand `&` chain prints as 27 nested parentheses, and
+# TLC's interpreter needs a few hundred Java frames per TLA+ level -- the default 1 MB thread stack overflows
+# (non-deterministically, depending on the JIT) on the larger sampled trees
+JVM_ENV = {"JAVA_TOOL_OPTIONS": "-Xss64m"}
+JVM_ENV_TRACE = {"JAVA_TOOL_OPTIONS": "-Xss64m -XX:ParallelGCThreads=2 -XX:CICompilerCount=2"}
 
 DERIVED = ["roundtrip", "copy", "copy2", "pickle", "rpickle", "symbolic", "setter"]
 KO_FORMS = ["set", "frozenset", "list", "tuple", "dictlist"]
@@ -85,7 +91,7 @@ def design_check(wd, rep, tier):
         consts, subst = _consts(d["Mode"], d, 0, emit=False, steps=d["Steps"])
         cfgp = C.write_cfg(os.path.join(wd, "design_%d.cfg" % i), consts, subst,
                            invariants=["InvTheorems", "InvRemoved"], constraints=["Constr"])
-        res = C.run_tlc("GPR", cfgp, wd, timeout=2400 if tier == "thorough" else 120)
+        res = C.run_tlc("GPR", cfgp, wd, timeout=2400 if tier == "thorough" else 300, env=JVM_ENV)
         rep.add_design(res)
         runs.append({"constants": {k: v for k, v in consts.items()}, "genes": d["ng"],
                      "states": res["distinct"], "transitions": res["generated"], "wall_s": round(res["wall_s"], 1)})
@@ -94,7 +100,7 @@ def design_check(wd, rep, tier):
         consts, subst = _consts("full", {"D": 2, "W": 2, "ng": 3}, 0, emit=False, bug=b, steps=True)
         cfgp = C.write_cfg(os.path.join(wd, "neg_%s.cfg" % b), consts, subst,
                            invariants=["InvTheorems", "InvRemoved"], constraints=["Constr"])
-        r = C.run_tlc("GPR", cfgp, wd, workers=4, timeout=300, expect_violation=True, heap="2g")
+        r = C.run_tlc("GPR", cfgp, wd, workers=4, timeout=300, expect_violation=True, heap="2g", env=JVM_ENV)
         return b, r["error"]
 
     controls = {}
@@ -116,7 +122,7 @@ def generate(wd, mode, p, sd):
             data = json.load(fh)
         return data["cases"], data["stats"]
     cfgp = C.write_cfg(os.path.join(wd, "gen_%s.cfg" % mode), consts, subst, constraints=["Constr"])
-    res = C.run_tlc("GPR", cfgp, wd, timeout=1800)
+    res = C.run_tlc("GPR", cfgp, wd, timeout=1800, env=JVM_ENV)
     cases = res["printed"]
     # TLC's workers print in any order: fix the order so that a run depends on (spec, seed) only
     cases.sort(key=lambda c: (c["walk"], json.dumps(c["tree"], sort_keys=True)))
@@ -211,7 +217,6 @@ class Driver:
 
     # ---- one case
     def run(self, case, j, tid, sd):
-        from cobra import Reaction
         from cobra.core.gene import GPR
         rnd = random.Random(sd * 1000003 + tid * 7919 + j)
         toks = case["spells"][j]["toks"]
@@ -327,7 +332,7 @@ def _drive_chunk(args):
     return out
 
 
-def drive_all(cases, ng, npal, sd, pool, tid0, all_pairs=True, ci0=0):
+def drive_all(cases, ng, npal, sd, pool, tid0, all_pairs=True, ci0=0, stride=1):
     """every (case, spelling) under `npal` palettes: a fixed rotation through all palettes plus
     seed-dependent further ones"""
     items, meta = [], {}
@@ -335,7 +340,9 @@ def drive_all(cases, ng, npal, sd, pool, tid0, all_pairs=True, ci0=0):
     P = len(PALETTES)
     for ci, case in enumerate(cases):
         for j in range(len(case["spells"])):
-            first = (ci0 + ci + j) % P
+            if (ci0 + ci + j) % stride:     # quick tier: every `stride`-th style, shifted from tree to tree
+                continue
+            first = ((ci0 + ci + j) // stride) % P
             step = 1 + sd % (P - 1)
             chosen = list(range(P)) if npal >= P else [first]
             q = 1
@@ -350,8 +357,12 @@ def drive_all(cases, ng, npal, sd, pool, tid0, all_pairs=True, ci0=0):
                 meta[tid] = (PALETTES[pi]["name"], ci, j)
     jobs = [(ng, sd, all_pairs, ch) for ch in C.chunks(items, max(20, len(items) // (C.NCPU * 6) + 1))]
     traces = []
-    for part in pool.imap_unordered(_drive_chunk, jobs):
-        traces.extend(part)
+    it = pool.imap_unordered(_drive_chunk, jobs)
+    for _ in jobs:
+        try:
+            traces.extend(it.next(timeout=900))
+        except mp.TimeoutError:
+            raise C.Machinery("a driver worker was lost or hung (no result for 900 s)")
     traces.sort(key=lambda t: t["tid"])
     return traces, meta
 
@@ -361,7 +372,7 @@ def _validate_file(args):
     path, ng, wd = args
     cfgp = C.write_cfg(path + ".cfg", {"Bug": "none"}, {"GeneSeq": "GeneSeq%d" % ng})
     res = C.run_tlc("TraceGPR", cfgp, wd, workers=2, timeout=3000, heap="3g",
-                    env={"TRACE_FILE": path, "JAVA_TOOL_OPTIONS": "-XX:ParallelGCThreads=2 -XX:CICompilerCount=2"})
+                    env=dict(JVM_ENV_TRACE, TRACE_FILE=path))
     return {"printed": res["printed"], "distinct": res["distinct"], "generated": res["generated"], "cmd": res["cmd"]}
 
 
@@ -418,7 +429,7 @@ def _report(rep, verdicts, traces, meta, cases, ng, notes):
 def run(prop, tier, replay=None):
     assert prop == "C08"
     rep = C.Report(prop, tier)
-    wd = C.workdir("C08_" + tier)
+    wd = C.workdir("C08_" + ("replay" if replay is not None else tier))
     rep.cleanup.append(wd)
     sd = C.seed()
     T = TIERS[tier]
@@ -438,6 +449,7 @@ def run(prop, tier, replay=None):
     samples = []
     distinct_cases = set()
     tid0 = 0
+    import cobra  # noqa: F401  imported once here, inherited by the forked workers
     with mp.get_context("fork").Pool(C.NCPU) as pool:
         for mode in ("full", "sample"):
             p = T[mode]
@@ -447,14 +459,14 @@ def run(prop, tier, replay=None):
             if mode == "sample" and len(cases) != p["NSamples"]:
                 raise C.Machinery("generator emitted %d sampled cases, expected %d" % (len(cases), p["NSamples"]))
             # slices bound the memory held at a time (a trace is ~25-40 events)
-            per_case = len(cases[0]["spells"]) * min(p["palettes"], len(PALETTES))
+            per_case = len(cases[0]["spells"]) * min(p["palettes"], len(PALETTES)) // p.get("style_stride", 1)
             step = max(1, 9000 // per_case)
             phases[mode + ":drive"] = phases[mode + ":validate"] = 0.0
             for a in range(0, len(cases), step):
                 sub = cases[a:a + step]
                 t0 = time.time()
                 traces, meta = drive_all(sub, p["ng"], p["palettes"], sd, pool, tid0, all_pairs=(tier == "thorough"),
-                                         ci0=a)
+                                         ci0=a, stride=p.get("style_stride", 1))
                 tid0 += len(traces)
                 phases[mode + ":drive"] = round(phases[mode + ":drive"] + time.time() - t0, 1)
                 t0 = time.time()
@@ -495,7 +507,8 @@ def run(prop, tier, replay=None):
             rep.coverage.setdefault("case_generation", {})[mode] = {
                 "trees": len(cases), "tlc_states": gstats["distinct"], "genes": p["ng"],
                 "constants": _consts(mode, p, sd if mode == "sample" else 0, True)[0],
-                "spellings_per_tree": len(cases[0]["spells"]) if cases else 0, "palettes_per_spelling": p["palettes"]}
+                "spellings_per_tree": (len(cases[0]["spells"]) if cases else 0) // p.get("style_stride", 1),
+                "palettes_per_spelling": p["palettes"]}
             rep.coverage["trace_checker_cmd"] = cmd
     need = ["parse", "eqpair", "remove"] + ["derived:" + h for h in DERIVED]
     missing = [k for k in need if not per_action.get(k)]
